@@ -21,7 +21,8 @@ RULE = (
     "decoupling / dyadic schedule, block size, dimension merging, preconditioner "
     "type, exponent override, start step, statistics / preconditioner intervals, "
     "skip thresholds, Newton/eigh, matrix epsilon, relative/absolute ridge, "
-    "gradient-norm clipping, replicated/sharded x trees of 1-3 leaves with rank "
+    "gradient-norm clipping, replicated / sharded / pmap over 2 host devices "
+    "(last replica observed) x trees of 1-3 leaves with rank "
     "0-4 and dims 1..7 x 3 (thorough 8) histories of 1..6 steps with kinds {dense, "
     "low-rank, sparse, scaled, small integers, zero}. Every step is compared leaf "
     "by leaf (count, statistics, preconditioners, diagonal statistics, both "
